@@ -125,9 +125,13 @@ func c07Run(t *testing.T, ops []string, o *Out) {
 					continue
 				}
 				ssrc := uint32(atoi(m["ssrc"]))
-				writers[ssrc] = icpt.BindLocalStream(
-					&interceptor.StreamInfo{SSRC: ssrc, ClockRate: uint32(atoi(m["rate"]))},
-					interceptor.RTPWriterFunc(func(*rtp.Header, []byte, interceptor.Attributes) (int, error) { return 0, o.RTPWriteErr() }))
+				// the chain hands ONE *StreamInfo to every member: what the sender interceptor reads from it (the clock rate,
+				// 0 = "not announced" included) must be what the caller wrote, and the caller's struct comes back unedited
+				info := &interceptor.StreamInfo{SSRC: ssrc, ClockRate: uint32(atoi(m["rate"]))}
+				o.InfoGuard("BindLocalStream", info, func() {
+					writers[ssrc] = icpt.BindLocalStream(info,
+						interceptor.RTPWriterFunc(func(*rtp.Header, []byte, interceptor.Attributes) (int, error) { return 0, o.RTPWriteErr() }))
+				})
 			case name == "write" && need("ssrc", "seq", "ts", "len", "dt"):
 				w, ok := writers[uint32(atoi(m["ssrc"]))]
 				if !ok {
@@ -137,14 +141,14 @@ func c07Run(t *testing.T, ops []string, o *Out) {
 				c07Sleep(atoi(m["dt"]))
 				h := &rtp.Header{Version: 2, SequenceNumber: uint16(atoi(m["seq"])), Timestamp: uint32(atoi(m["ts"])), SSRC: uint32(atoi(m["ssrc"]))}
 				payload := make([]byte, atoi(m["len"]))
-				if _, err := w.Write(h, payload, interceptor.Attributes{}); err != nil && !errors.Is(err, errAmbWrite) {
+				if _, err := w.Write(h, payload, o.Attrs(interceptor.Attributes{})); err != nil && !errors.Is(err, errAmbWrite) {
 					panic(err)
 				}
 				// rep=N: N further packets of the same frame (same timestamp, same instant, consecutive numbers) — long
 				// streams make the 32-bit packet and octet counters wrap
 				for i := 0; i < atoi(m["rep"]) && m["rep"] != ""; i++ {
 					h.SequenceNumber++
-					if _, err := w.Write(h, payload, interceptor.Attributes{}); err != nil && !errors.Is(err, errAmbWrite) {
+					if _, err := w.Write(h, payload, o.Attrs(interceptor.Attributes{})); err != nil && !errors.Is(err, errAmbWrite) {
 						panic(err)
 					}
 				}
@@ -161,7 +165,8 @@ func c07Run(t *testing.T, ops []string, o *Out) {
 					o.P("bad-op")
 					continue
 				}
-				icpt.UnbindLocalStream(&interceptor.StreamInfo{SSRC: ssrc})
+				info := &interceptor.StreamInfo{SSRC: ssrc}
+				o.InfoGuard("UnbindLocalStream", info, func() { icpt.UnbindLocalStream(info) })
 				delete(writers, ssrc) // later writes to the orphaned stream are unobservable: not part of the protocol
 			default:
 				o.P("bad-op")
@@ -241,7 +246,7 @@ func c07GenPlain(r *Rng, tier string, idx int) Case {
 	if cl == "ooo" {
 		latest = (idx / len(classes)) % 2
 	}
-	rates := []int{1, 8000, 48000, 90000, 4294967295}
+	rates := []int{1, 8000, 48000, 90000, 4294967295, 0}
 	dts := []int{0, 0, 1, 999, 1000000, 20000000, 33333333, 999999999, 1000000000, 1000000001, 5000000000}
 	ops := []string{}
 	nstreams := 1
